@@ -16,7 +16,9 @@ RULE = ("Cases are JSON descriptions of (a) an Arrhenius/Eyring parameter set wi
         "kinetics/_rates.py, thermodynamics/expressions.py and util/_expr.py, built by construction (positive "
         "denominators and power bases, temperatures 200..2000 K inside every piecewise domain).  Every number is an SI "
         "value plus a unit product; plain-float configurations (math, numpy, sympy symbols then subs) receive the SI "
-        "value, the units configuration receives value/factor * unit with factors from an own table.  The expected "
+        "value, the units configurations (Backend(), and the default backend where no unit can survive inside a "
+        "transcendental function) receive value/factor * unit with factors from an own table - every quantity in its "
+        "own unit for single classes and parameter sets, one unit name per base dimension for trees.  The expected "
         "number is the defining formula evaluated with mpmath (50 digits) on the description; a unique_keys / named "
         "override replaces exactly one argument in that formula.  Non-trivial: params - order >= 2 and a non-SI "
         "unit; classes - a class needing the reaction with order >= 2, a non-SI unit, or a nested argument; trees - "
@@ -545,23 +547,23 @@ def _params_body(case, ctx, C, kind, rxn, order, species, net, B, BF, np, sympy,
 
 
 SUBCHECKS = [
-    SubCheck("params", check_params, strategy=G.param_cases(), quick=1200, thorough=25000,
+    SubCheck("params", check_params, strategy=G.param_cases(), quick=800, thorough=25000,
              rule="ArrheniusParam/EyringParam(+WithUnits): P(T) under default/math/numpy/sympy-subs/units, "
                   "from_rateconst_at_T round trip, Reaction(..., P).rate(vars) for orders 1..3 and "
                   "as_RateExpr(unique_keys) overrides",
              tolerances={"rtol_of_condition_scale": RTOL, "from_rateconst": RTOL_RT}),
-    SubCheck("classes", check_expr, strategy=_with_sub(G.class_cases(), "classes"), quick=2400, thorough=50000,
+    SubCheck("classes", check_expr, strategy=_with_sub(G.class_cases(), "classes"), quick=1800, thorough=50000,
              rule="one instance of every expression class, physically wide argument ranges, list/dict/scalar "
                   "construction, named and nested arguments; direct call or Reaction.rate",
              tolerances={"rtol_of_condition_scale": RTOL}),
-    SubCheck("trees", check_expr, strategy=_with_sub(G.tree_cases(max_depth=4), "trees"), quick=2400, thorough=60000,
+    SubCheck("trees", check_expr, strategy=_with_sub(G.tree_cases(max_depth=4), "trees"), quick=1800, thorough=60000,
              rule="random trees (depth <= 4) over + - * / ** neg exp log10 with class, Constant, Symbol and literal "
                   "leaves; MassAction (UnaryWrapper) products/quotients at the root",
              tolerances={"rtol_of_condition_scale": RTOL}),
-    SubCheck("trees_deep", check_expr, strategy=_with_sub(G.tree_cases(max_depth=6, keyp=15), "trees"), quick=200,
+    SubCheck("trees_deep", check_expr, strategy=_with_sub(G.tree_cases(max_depth=6, keyp=15), "trees"), quick=150,
              thorough=15000, rule="as trees, depth <= 6, more unique keys (values beyond 1e120 are not judged)",
              tolerances={"rtol_of_condition_scale": RTOL}),
-    SubCheck("override", check_expr, strategy=_with_sub(G.override_cases(), "override"), quick=1600, thorough=35000,
+    SubCheck("override", check_expr, strategy=_with_sub(G.override_cases(), "override"), quick=1200, thorough=35000,
              rule="class instances with unique_keys (also args=None) inside small trees; a subset of the keys is "
                   "overridden through `variables`",
              tolerances={"rtol_of_condition_scale": RTOL}),
